@@ -13,7 +13,7 @@ T == Traces[tid]
 E == T.ev[l]
 
 TInit == /\ tid \in 1..Len(Traces) /\ l = 1
-         /\ InitWith([shape |-> Traces[tid].cfg.shape, kind |-> Traces[tid].cfg.kind])
+         /\ InitWith([shape |-> Traces[tid].cfg.shape, kind |-> Traces[tid].cfg.kind, extra |-> Traces[tid].cfg.extra])
 
 Step(A) == /\ l <= Len(T.ev) /\ A /\ Inv' /\ l' = l + 1 /\ UNCHANGED tid
 
